@@ -616,3 +616,22 @@ def run(ctx):
     okj = any(norm_text(r.value) == "'/'.join(%s)" % NP for r in rets) and any(
         norm_text(c) in ("%s.appendleft('')" % NP, "%s.insert(0, '')" % NP) for c in U.calls(fp.node))
     ck.expect(okj, 'C10-D5', fp.qual, "result = '/' + '/'.join(kept segments)", 'flatten_path result assembly changed', fp.loc())
+    # a path that ends in a dot segment names a directory (RFC 3986 5.2.4: "/a/b/.." -> "/a/"): the trailing slash it implies is
+    # kept, otherwise "/a/b/.." and "/a/" - two spellings of one URL - normalise to "/a" and "/a/"
+    oktrail = False
+    for n in walk_no_nested(fp.node):
+        if isinstance(n, ast.If) and n.lineno > loop.end_lineno:
+            consts = set()
+            for c_ in ast.walk(n.test):
+                if isinstance(c_, ast.Constant) and isinstance(c_.value, str):
+                    consts.add(c_.value)
+                if isinstance(c_, (ast.Tuple, ast.List, ast.Set)):
+                    consts |= {e.value for e in c_.elts if isinstance(e, ast.Constant) and isinstance(e.value, str)}
+            dotty = ({'.', '..'} <= consts) or ({'/.', '/..'} <= consts)
+            appends = any(isinstance(c_, ast.Call) and U.attr_name(c_) == 'append' and c_.args and isinstance(c_.args[0], ast.Constant)
+                          and c_.args[0].value == '' for b in n.body for c_ in ast.walk(b))
+            if dotty and appends:
+                oktrail = True
+    ck.expect(oktrail, 'C10-D5', fp.qual, 'a trailing "." or ".." segment leaves a trailing slash',
+              'flatten_path("/a/b/..") gives "/a" where dot-segment removal gives "/a/": the dot-segment spelling of a directory URL and '
+              'its plain spelling normalise to different strings (and are fetched twice)', fp.loc())
